@@ -6,6 +6,7 @@
 #include <future>
 #include <mutex>
 #include <nano/arch.h>
+#include <nano/core/verif.h>
 #include <thread>
 #include <vector>
 
@@ -33,11 +34,14 @@ public:
     {
         auto task   = task_t(std::forward<tfunction>(f));
         auto future = task.get_future();
+        NANO_VERIF_POINT(enqueue_begin, this, 0U);
         {
             const std::scoped_lock lock(m_mutex);
             m_tasks.emplace_back(std::move(task));
+            NANO_VERIF_POINT(enqueue_pushed, this, 0U);
         }
         m_condition.notify_one();
+        NANO_VERIF_POINT(enqueue_notified, this, 0U);
         return future;
     }
 
@@ -190,16 +194,21 @@ public:
         {
             section_t section;
             section.reserve(static_cast<size_t>(elements));
+            NANO_VERIF_POINT(map_begin, &m_queue, static_cast<size_t>(elements));
             {
                 const std::scoped_lock lock(m_queue.m_mutex);
                 for (tsize index = 0; index < elements; ++index)
                 {
                     section.emplace_back(m_queue.enqueue_no_lock([op, index](const size_t tnum) { op(index, tnum); }));
+                    NANO_VERIF_POINT(map_pushed, &m_queue, static_cast<size_t>(index));
                 }
             }
+            NANO_VERIF_POINT(map_unlocked, &m_queue, 0U);
             m_queue.m_condition.notify_all();
+            NANO_VERIF_POINT(map_notified, &m_queue, 0U);
 
             section.block(raise);
+            NANO_VERIF_POINT(map_end, &m_queue, 0U);
         }
     }
 
@@ -226,6 +235,7 @@ public:
         {
             section_t section;
             section.reserve(static_cast<size_t>((elements + chunksize - 1) / chunksize));
+            NANO_VERIF_POINT(map_begin, &m_queue, static_cast<size_t>(elements));
             {
                 const std::scoped_lock lock(m_queue.m_mutex);
                 for (tsize begin = 0; begin < elements; begin += chunksize)
@@ -233,11 +243,15 @@ public:
                     const auto end = std::min(begin + chunksize, elements);
                     section.emplace_back(
                         m_queue.enqueue_no_lock([op, begin, end](const size_t tnum) { op(begin, end, tnum); }));
+                    NANO_VERIF_POINT(map_pushed, &m_queue, static_cast<size_t>(begin));
                 }
             }
+            NANO_VERIF_POINT(map_unlocked, &m_queue, 0U);
             m_queue.m_condition.notify_all();
+            NANO_VERIF_POINT(map_notified, &m_queue, 0U);
 
             section.block(raise);
+            NANO_VERIF_POINT(map_end, &m_queue, 0U);
         }
     }
 
